@@ -20,6 +20,7 @@ type vProdCfg struct {
 	partsOf           []int32 // partition of message i (nil: i % parts)
 	version           KafkaVersion
 	useClose          bool
+	closeAfter        int // stop submitting and close after this many messages (0: all of them)
 }
 
 type vEvent struct {
@@ -37,6 +38,8 @@ type vProdResult struct {
 	events []vEvent
 	p      *asyncProducer
 	partsOf []int32
+	closeErr  error
+	usedClose bool
 }
 
 func vRunProducer(c vProdCfg) *vProdResult {
@@ -73,19 +76,34 @@ func vRunProducer(c vProdCfg) *vProdResult {
 	p := pi.(*asyncProducer)
 	res := &vProdResult{cl: cl, client: client, conf: conf, p: p, partsOf: c.partsOf}
 	done := make(chan struct{}, 2)
+	if c.useClose {
+		// with Close() the application does not read the channels itself
+		done <- struct{}{}
+		done <- struct{}{}
+	}
 	go func() {
+		if c.useClose {
+			return
+		}
 		for m := range p.Successes() {
 			res.events = append(res.events, vEvent{msg: m, offset: m.Offset, partition: m.Partition})
 		}
 		done <- struct{}{}
 	}()
 	go func() {
+		if c.useClose {
+			return
+		}
 		for e := range p.Errors() {
 			res.events = append(res.events, vEvent{msg: e.Msg, err: e.Err})
 		}
 		done <- struct{}{}
 	}()
-	for i := 0; i < c.n; i++ {
+	limit := c.n
+	if c.closeAfter > 0 && c.closeAfter < c.n {
+		limit = c.closeAfter
+	}
+	for i := 0; i < limit; i++ {
 		part := int32(i % c.parts)
 		if c.partsOf != nil {
 			part = c.partsOf[i]
@@ -93,6 +111,12 @@ func vRunProducer(c vProdCfg) *vProdResult {
 		m := &ProducerMessage{Topic: "t", Partition: part, Value: ByteEncoder{byte(i + 1)}, Metadata: i}
 		res.msgs = append(res.msgs, m)
 		p.Input() <- m
+	}
+	if c.useClose {
+		// Close() drains Successes itself and returns the collected errors
+		res.closeErr = p.Close()
+		res.usedClose = true
+		return res
 	}
 	p.AsyncClose()
 	<-done
